@@ -59,10 +59,32 @@ struct Pool {
     dup: Vec<String>,
     bit_ones: Vec<u64>,
     n_salts: u64,
+    /// occurrences of each base64url character at each of the 22 positions of a 16-byte salt's text
+    char_counts: Vec<u64>,
+    n_text22: u64,
+}
+const B64URL: &[u8; 64] = b"ABCDEFGHIJKLMNOPQRSTUVWXYZabcdefghijklmnopqrstuvwxyz0123456789-_";
+/// Characters that never occur although they should: at positions 0..=20 all 64, at position 21 the four
+/// whose low four bits are zero. With n salts the chance that a uniform source misses one is below
+/// 22 * 64 * exp(-n / 64); asked for only when n >= 10 000 (< 1e-60).
+fn missing_chars(counts: &[u64], n: u64) -> Vec<String> {
+    let mut out = vec![];
+    if n < 10_000 {
+        return out;
+    }
+    for pos in 0..22 {
+        for c in 0..64 {
+            let expected = pos < 21 || c % 16 == 0;
+            if expected && counts[pos * 64 + c] == 0 {
+                out.push(format!("'{}' never at position {pos}", B64URL[c] as char));
+            }
+        }
+    }
+    out
 }
 impl Pool {
     fn new() -> Pool {
-        Pool { seen: HashMap::new(), dup: vec![], bit_ones: vec![0; 128], n_salts: 0 }
+        Pool { seen: HashMap::new(), dup: vec![], bit_ones: vec![0; 128], n_salts: 0, char_counts: vec![0; 22 * 64], n_text22: 0 }
     }
     fn add(&mut self, h: &Harvest, origin: &str) {
         for s in h.salts.iter().chain(h.decoys.iter()) {
@@ -71,6 +93,22 @@ impl Pool {
             }
         }
         for s in &h.salts {
+            if s.len() == 22 {
+                let mut ok = true;
+                let mut idx = [0usize; 22];
+                for (pos, ch) in s.bytes().enumerate() {
+                    match B64URL.iter().position(|x| *x == ch) {
+                        Some(c) => idx[pos] = c,
+                        None => ok = false,
+                    }
+                }
+                if ok {
+                    self.n_text22 += 1;
+                    for (pos, c) in idx.iter().enumerate() {
+                        self.char_counts[pos * 64 + c] += 1;
+                    }
+                }
+            }
             if let Some(b) = codec::b64d(s) {
                 if b.len() >= 16 {
                     self.n_salts += 1;
@@ -294,6 +332,8 @@ pub fn worker(args: &[String]) {
         doc["dups"] = json!(pool.dup);
         doc["bit_ones"] = json!(pool.bit_ones);
         doc["n_salts"] = json!(pool.n_salts);
+        doc["char_counts"] = json!(pool.char_counts);
+        doc["n_text22"] = json!(pool.n_text22);
         println!("RESULT {doc}");
         return;
     }
@@ -396,6 +436,10 @@ pub fn run(rep: &Report) {
             global.bit_ones[i] += b.as_u64().unwrap_or(0);
         }
         global.n_salts += r["n_salts"].as_u64().unwrap_or(0);
+        for (i, b) in r["char_counts"].as_array().cloned().unwrap_or_default().iter().enumerate() {
+            global.char_counts[i] += b.as_u64().unwrap_or(0);
+        }
+        global.n_text22 += r["n_text22"].as_u64().unwrap_or(0);
     }
     // path-spelling family: member names that spell another node's path ("a.a" next to a:{a:..}, "a[0]" next to a:[..])
     {
@@ -454,6 +498,11 @@ pub fn run(rep: &Report) {
     rep.set_extra("distinct_salts_and_decoy_digests", json!(global.seen.len()));
     if worst > 8.0 && global.n_salts >= 1000 {
         l.violation(Violation::new("issue", "biased_salt_bit", "c14_bit_frequency", "global", format!("bit {worst_bit} deviates {worst:.1} sigma from 1/2 over {} salts", global.n_salts), json!({"kind": "c14_global"})));
+    }
+    let missing = missing_chars(&global.char_counts, global.n_text22);
+    rep.set_extra("auxiliary_salt_alphabet_coverage", json!({"salts_of_22_characters": global.n_text22, "position_character_pairs_expected": 21 * 64 + 4, "never_seen": missing.len(), "note": "every base64url character must occur at every position of the salt text; statistical (a uniform source misses one with probability < 1e-60 at this sample size), not a coverage claim"}));
+    if let Some(m) = missing.first() {
+        l.violation(Violation::new("issue", "salt_alphabet_not_covered", "c14_character_coverage", "global", format!("{} (position, character) pairs never occur over {} salts, first: {m}", missing.len(), global.n_text22), json!({"kind": "c14_global"})));
     }
     rep.merge(l);
     if rep.outcome_count("schedule_ok") == 0 {
@@ -524,6 +573,9 @@ pub fn replay(case: &Value) -> Vec<Violation> {
                     l.violation(Violation::new("issue", "biased_salt_bit", "c14_bit_frequency", "global", format!("bit {i}"), case.clone()));
                     break;
                 }
+            }
+            if let Some(m) = missing_chars(&global.char_counts, global.n_text22).first() {
+                l.violation(Violation::new("issue", "salt_alphabet_not_covered", "c14_character_coverage", "global", m.clone(), case.clone()));
             }
             for v in rep.take_violations() {
                 l.violation(v);
